@@ -17,12 +17,13 @@ CHECK = {
             {"name": "store", "run": "^TestC06_Store$", "checks": {"quick": 200, "thorough": 1500}, "shards": {"quick": 1, "thorough": 16}},
             # the in-range helper and its three call sites (package p_proto)
             {"name": "inrange", "package": "p_proto", "run": "^TestC06_InRange$", "checks": {"quick": 20000, "thorough": 300000}, "shards": {"quick": 1, "thorough": 16}},
+            {"name": "boundary", "package": "p_proto", "run": "^TestC06_Boundary$", "checks": {"quick": 150, "thorough": 2000}, "shards": {"quick": 1, "thorough": 8}},
             {"name": "sites", "package": "p_proto", "run": "^TestC06_Sites$", "checks": {"quick": 2500, "thorough": 20000}, "shards": {"quick": 2, "thorough": 16}},
         ],
         "rule": "[in-range half, p_proto] rapid draws (node id, content id from classes uniform / shared prefix / single bit / chosen leading+trailing distance bytes / palindromic "
                 "distance, radius from classes dist-1, dist, dist+1, < 600, 2^k, 2^k+-1, max, between 257 and dist, the little-endian reading of the distance) for the helper, and "
                 "(content key, radius class) against the offer filter in both accept encodings and the store RPC of a real instance with a settable-radius store; judged: in range whenever "
-                "radius > XOR distance, out of range whenever radius < distance (either answer at equality). Non-trivial there = big- and little-endian readings order differently, "
+                "radius > XOR distance, out of range whenever radius < distance; at equality the helper must decide as the real pebble store's admission does (differential check on byte-palindromic distances, which read the same in either byte order). Non-trivial there = big- and little-endian readings order differently, "
                 "256 < radius <= distance, radius < 2^9, boundary. [store half, p_store] node id (zero, all-ones, single bit, random), capacity 1/2/0 MB, 1..70 operations (put, reopen, flush) with values of 0.5-3 pruning "
                 "quanta so that prunes come every few puts; ids: single bit, tiny, chosen log distance, big-endian-small/little-endian-large and "
                 "vice versa, palindromic, far end, uniform, existing, single-bit neighbour, the farthest retained item, and distances equal to the "
